@@ -300,6 +300,18 @@ impl BuildSpec {
 
     /// Drive the real builder with exactly this configuration.
     pub fn build(&self, env: &Env) -> Result<Package, rpm::Error> {
+        let b = self.builder(env)?;
+        crate::hooks::set_force_large_files(self.large_files);
+        let r = match self.sign {
+            None => b.build(),
+            Some(k) => b.build_and_sign(env.signer(k)),
+        };
+        crate::hooks::set_force_large_files(false);
+        r
+    }
+
+    /// The configured builder, just before `build` / `build_and_sign`.
+    pub fn builder(&self, env: &Env) -> Result<PackageBuilder, rpm::Error> {
         let mut b = PackageBuilder::new(&self.name, &self.version, &self.license, &self.arch, &self.summary);
         if let Some(v) = &self.release {
             b = b.release(v.clone());
@@ -424,13 +436,7 @@ impl BuildSpec {
                 None => b.source_date(sd),
             };
         }
-        crate::hooks::set_force_large_files(self.large_files);
-        let r = match self.sign {
-            None => b.build(),
-            Some(k) => b.build_and_sign(env.signer(k)),
-        };
-        crate::hooks::set_force_large_files(false);
-        r
+        Ok(b)
     }
 
     pub fn build_bytes(&self, env: &Env) -> Result<(Package, Vec<u8>), String> {
